@@ -133,12 +133,18 @@ int eng_fault_main(int argc, char **argv) {
     if (it != known_cases.end() && enabled.count(it->second)) { std::string j2 = js; j2.insert(j2.size() - 1, ",\"finding\":" + jstr(it->second)); r.knownf(j2); r.add("known_" + it->second); }
     else r.viol(js);
   };
-  auto one_fault = [&](const Scenario &sc, long k, Report &r, bool print) {
+  // env: which object the library touched last before the failing call - 0 the object of the call itself,
+  // 1 the bystander (a parse on it), 2 an object that was created and freed again.  The library keeps
+  // "current grammar" pointers in file-scope variables: the failure must be recorded in the right object.
+  auto one_fault = [&](const Scenario &sc, long k, int env, Report &r, bool print) {
     // bystander first (its allocations are not counted)
     void *b = vy_create();
     if (!b || define_by_text(b, BY_TEXT, 0) != 0) machinery_error("bystander setup failed");
     std::string before = bystander_obs(b);
     Prepared p; prepare(sc, p);
+    if (env == 1) { if (bystander_obs(b) != before) machinery_error("bystander not deterministic"); }
+    else if (env == 2) { void *t = vy_create(); if (!t) machinery_error("create failed without fault"); vy_free(t); }
+    int b_code = vy_error_code(b); std::string b_msg = vy_error_message(b);
     g_trk.reset();
     g_bt[0] = NULL; yaep_verif_fail_bt = g_bt;
     yaep_verif_fail_at = yaep_verif_alloc_count + k;
@@ -146,7 +152,7 @@ int eng_fault_main(int argc, char **argv) {
     int rc = run_call(sc, p, &po);
     bool fired = yaep_verif_alloc_count >= yaep_verif_fail_at;
     yaep_verif_fail_at = 0;
-    std::string cs = "scenario=" + sc.name + " k=" + std::to_string(k);
+    std::string cs = "scenario=" + sc.name + " k=" + std::to_string(k) + " env=" + std::to_string(env);
     auto V = [&](const std::string &kind, const std::string &detail) {
       std::string js = "{\"property\":\"C17\",\"kind\":" + jstr(kind) + ",\"engine\":\"fault\",\"case\":" + jstr(cs) + ",\"grammar\":" + jstr(sc.text) + ",\"detail\":" + jstr(detail) + "}";
       file_violation(r, js, sc.name, k, kind); if (print) printf("VIOLATION-DETAIL %s\n", js.c_str());
@@ -162,14 +168,15 @@ int eng_fault_main(int argc, char **argv) {
     // the object can still be freed, nothing of the library stays allocated for it
     if (p.y) vy_free(p.y);
     // the bystander is unaffected
+    if (vy_error_code(b) != b_code || b_msg != vy_error_message(b)) V("bystander-error-state", "the error state of another object changed: code " + std::to_string(b_code) + " -> " + std::to_string(vy_error_code(b)) + ", message \"" + b_msg + "\" -> \"" + vy_error_message(b) + "\"");
     std::string after = bystander_obs(b);
     if (after != before) V("bystander-affected", "another object parses differently after the fault: [" + after + "] instead of [" + before + "]");
     vy_free(b);
     if (yaep_verif_live_blocks != 0) r.add("runs_with_blocks_left_after_fault");   // not part of the statement: counted only
   };
   if (a.has("case")) {
-    char nm[128]; long k; if (sscanf(a.get("case").c_str(), "scenario=%127s k=%ld", nm, &k) != 2) machinery_error("bad case");
-    for (auto &sc : scs) if (sc.name == nm) { Report r; one_fault(sc, k, r, true); }
+    char nm[128]; long k; int env = 0; if (sscanf(a.get("case").c_str(), "scenario=%127s k=%ld env=%d", nm, &k, &env) < 2) machinery_error("bad case");
+    for (auto &sc : scs) if (sc.name == nm) { Report r; one_fault(sc, k, env, r, true); }
     return 0;
   }
   long idx = 0;
@@ -185,14 +192,15 @@ int eng_fault_main(int argc, char **argv) {
       close(pfd[0]);
     }
     if (si == 0) { total.add("scenarios"); total.add("allocation_requests_fault_free", N); total.sample("{\"scenario\":" + jstr(sc.name) + ",\"allocation_requests\":" + std::to_string(N) + ",\"grammar\":" + jstr(sc.text) + "}"); }
-    for (long k = 1; k <= N; k++) {
+    for (long k = 1; k <= N; k++) for (int env = 0; env < 3; env++) {
+      if (env == 2 && sc.kind == 0) continue;   // nothing to interleave before the first object exists... env 1 already covers a foreign current grammar
       if ((idx++ % sn) != si) continue;
       Report tmp;
-      ChildRes cr = run_child([&](Report &r) { one_fault(sc, k, r, false); }, tmp, 60);
-      std::string cs = "scenario=" + sc.name + " k=" + std::to_string(k);
+      ChildRes cr = run_child([&](Report &r) { one_fault(sc, k, env, r, false); }, tmp, 60);
+      std::string cs = "scenario=" + sc.name + " k=" + std::to_string(k) + " env=" + std::to_string(env);
       if (cr.ok) { for (auto &kv : tmp.counters) total.counters[kv.first] += kv.second; for (auto &v : tmp.violations) total.violations.push_back(v); for (auto &v : tmp.known) total.known.push_back(v); }
       else {
-        Report t2; ChildRes c2 = run_child([&](Report &r) { one_fault(sc, k, r, false); }, t2, 120);
+        Report t2; ChildRes c2 = run_child([&](Report &r) { one_fault(sc, k, env, r, false); }, t2, 120);
         if (c2.ok) machinery_error("fault case failed once and passed on replay: " + cs);
         total.add("fault_runs"); total.add("faults_fired");
         std::string kind = c2.timeout ? "hang" : "crash";
